@@ -23,6 +23,7 @@ AXIOMS = [
 PRECONDITIONS = {
     # verb -> [(a, b, reason)]   meaning ids(a) <= ids(b) is guaranteed by the verb function
     "GroupBy": [(S.FLD("group_by"), S.IN, "verbs.group_by rejects non-selected columns with ValueError; C.name resolves to visible columns (C14 instance `group_by-hidden`)")],
+    "Alias": [(S.IN, S.FLD("uuid_map"), "every producer of Alias.uuid_map maps at least the visible columns (C16.R6 producer/consumer rule)")],
     "Select": [(S.FLD("select"), S.IN, "verbs.select rejects hidden / unknown columns (C14 instances `select-unknown`, `select-hidden`)")],
 }  # fmt: skip
 
